@@ -176,9 +176,10 @@ CLAIMS: dict = {
              'exception - for all graphs and all positive weight tables. The same clauses are run as a bounded stand-in '
              'on the real functions over every digraph with <= 3 (quick) / 4 (thorough) nodes.',
         note='A-FLOAT (floats as reals, log strictly increasing), taxonomy contracts = C13, weights contract = C15, A-POS '
-             '(hypernyms share the part of speech up to a/s). Known findings K14 (wup takes the first of an unordered '
-             'list of lowest common hypernyms) and K15 (res uses the least informative one). Fixed finding F6 '
-             '(KeyError for satellite adjectives). K22 / K30 (see C13) affect wup/path through inferred lowest common hypernyms and pairs from two lexicons.',
+             '(hypernyms share the part of speech up to a/s). Fixed findings: K14 (wup took the first of a set-ordered list of lowest '
+             'common hypernyms; the list is sorted since F15, and wup:symmetric is discharged over the contract "first '
+             'in the fixed order"), K15 -> F28 (res used the least informative one), F6 (KeyError for satellite '
+             'adjectives). K22 / K30 (see C13) affect wup/path through inferred lowest common hypernyms and pairs from two lexicons.',
         technique='contract-based deductive verification: symbolic execution of the real functions over uninterpreted graph '
                   'contracts, z3 (reals); bounded stand-in on small digraphs',
         engines=['pyvc', 'bounded']),
